@@ -8,6 +8,18 @@ import c15_httpgen as g
 
 LEVEL = "exploration"
 MIB = 1024 * 1024
+# quick: plain + asan; thorough: + tsan. The optional -fno-access-control build (client-inproc,
+# quick: plain; thorough: plain + asan) is pre-built by setup() below, not listed here, because a
+# compile failure of it only skips that sub-run.
+BUILDS = [("c15_http", "plain"), ("c15_http", "asan"), ("c15_http", "tsan")]
+
+
+def setup():
+    for f in ("plain", "asan"):
+        try:
+            vf.build("c15_http_priv", f, priv_flags())
+        except vf.HarnessFailure as e:
+            print("[setup] optional c15_http_priv.%s not built: %s" % (f, str(e)[:300]))
 
 # (family, symptom) used in keys when a hostile message is framed and delivered
 HKEY = {
@@ -242,6 +254,12 @@ class Judge:
         lost = False
         for i, e in enumerate(exp):
             cands = by_path.get(e["path"], [])
+            if not cands and st.kind == "h":
+                # valid messages in front of a hostile one: the server may reject the connection
+                # before it got round to serving them (not a refuting event of C15); if they are
+                # delivered they must be exact (checked below)
+                self.count("hostile_valid_prefix_not_served_before_rejection")
+                continue
             if not cands:
                 where = ("after-" + exp[i - 1]["cls"]) if i > 0 else e["cls"]
                 lost = True
@@ -370,7 +388,7 @@ def plan(ctx, bins, corp, priv_bins):
     rng = random.Random(ctx.seed + 99)
     shards = []
     hang_shards = []
-    req_to = 8000
+    req_to = 5000
     for fl in bins:
         b = fl
         scale = {"plain": 1.0, "asan": 0.2 if not thorough else 0.25, "tsan": 0.12}[fl]
@@ -380,7 +398,7 @@ def plan(ctx, bins, corp, priv_bins):
         cm = corp["cm"][: max(20, int(len(corp["cm"]) * scale * 2))]
         sh_safe = [s for s in corp["sh"] if not s.hang_risk]
         sh_hang = [s for s in corp["sh"] if s.hang_risk]
-        slow = 1 if fl == "plain" else 3
+        slow = 1 if fl == "plain" else 2
         inproc_extra = ["--wait-ms", 250 * slow, "--long-wait-ms", 2000 * slow, "--cpu-limit-ms", 4000 * slow]
         # server, in process: every single cut of every valid stream
         shards += split_shards(fl, "server-inproc", sv, "sv", 14 if fl == "plain" else 10, inproc_extra)
@@ -424,15 +442,20 @@ def plan(ctx, bins, corp, priv_bins):
 def run(ctx):
     thorough = ctx.tier == "thorough"
     flavors = ["plain", "asan"] + (["tsan"] if thorough else [])
-    built = vf.build_many([("c15_http", f) for f in flavors])
-    bins = {f: built[("c15_http", f)] for f in flavors}
-    priv_bins = {}
-    if thorough:
-        # optional: direct calls into the client's private framing functions (exact single cuts)
-        for f in ("plain", "asan"):
+    from concurrent.futures import ThreadPoolExecutor
+    priv_flavors = ("plain", "asan") if thorough else ("plain",)
+    bins, priv_bins = {}, {}
+    with ThreadPoolExecutor(max_workers=6) as ex:
+        main_f = {f: ex.submit(vf.build, "c15_http", f) for f in flavors}
+        # optional: direct calls into the client's private framing functions (exact single cuts);
+        # a compile failure of this -fno-access-control TU only skips the sub-run
+        priv_f = {f: ex.submit(vf.build, "c15_http_priv", f, priv_flags()) for f in priv_flavors}
+        for f, fu in main_f.items():
+            bins[f] = fu.result()
+        for f, fu in priv_f.items():
             try:
-                priv_bins[f] = vf.build("c15_http_priv", f, extra_flags=priv_flags())
-            except vf.HarnessFailure as e:
+                priv_bins[f] = fu.result()
+            except vf.HarnessFailure:
                 ctx.extra.setdefault("skipped", []).append("client-inproc (%s): optional -fno-access-control build failed" % f)
     corp = corpora(ctx.seed, ctx.tier)
     by_id = {}
@@ -509,6 +532,8 @@ def run(ctx):
                 nsample += 1
             ctx.case(sig="%s|%s" % (sh.mode, st.sig()), sample=smp, n=rec["nseg"])
             ctx.obs("%s:segmentations_judged" % sh.mode, rec["nseg"])
+            if rec.get("capped"):
+                ctx.obs("cases_with_segmentation_exploration_cut_short")
             if "A" in st.segspec.split(";"):
                 ctx.obs("streams_with_every_single_cut_point")
             if st.interim:
